@@ -19,6 +19,7 @@ def run(ctx):
                 "TLC (SetLin.tla) searches a linearization of every call/return history that also explains the next snapshot's content, Count(), "
                 "ItemsCount, every concurrent reader scan, and the physical chain after everything was closed and collected")
     nwriters.model_check(ctx, T)
+    nwriters.conformance(ctx, T, 31)
     for i, (n, big, mm) in enumerate([(400, False, 2), (60, True, 2)] if not T else [(3000, False, 2), (600, True, 2), (600, True, 0)]):
         tr, ns, crashes = writers.run_wr(ctx, "c03_%d" % i, vlib.seed() * 10 + i, n, mm=mm, big=big, nomem=True)
         if crashes:
